@@ -3,6 +3,7 @@
 //   drv_c05 freeze-big <dir> <seed>     (run ONCE, by hand, to create /verif/corpus_big: size-covering streams, see run_freeze_big)
 //   drv_c05 freeze-bounds <dir> <seed>  (run ONCE, by hand: streams on the representation boundaries, appended to /verif/corpus_big)
 //   drv_c05 freeze-handles <dir> <seed> <n>  (run ONCE, by hand: Edgebreaker streams with two topology-split events at one symbol, appended to /verif/corpus_big)
+//   drv_c05 freeze-kd <dir> <seed>      (run ONCE, by hand: small kD-tree clouds at the highest tree level, appended to /verif/corpus)
 //   drv_c05 freeze-skip <dir>           (run ONCE per corpus directory, by hand: digests of the decodes with the attribute transform skipped)
 //   drv_c05 freeze-wide-charts <dir> <seed>  (run ONCE, by hand: 5-byte varints, textured grids cut into UV charts; appended to /verif/corpus_big)
 //   drv_c05 freeze-islands <dir> <seed> <n>  (run ONCE, by hand: textured grids with a UV chart per triangle; appended to /verif/corpus_big)
@@ -173,6 +174,39 @@ static int run_freeze_bounds(const std::string &dir, uint64_t seed) {
     }
   }
   fprintf(stderr, "froze %ld boundary streams\n", k);
+  return 0;
+}
+
+// kD-tree clouds of 64..100 points at the highest tree level (speeds 0..4: the split axis of every node with 64 or more points is a 4-bit number
+// in the stream), 3..6 dimensions in total, few quantisation bits (streams of 100..300 bytes: the fault sweep visits every offset).  Appended to <dir>.
+static int run_freeze_kd(const std::string &dir, uint64_t seed) {
+  vrt::Rng r(seed);
+  std::ofstream idx(dir + "/index.ndjson", std::ios::app);
+  long k = 0;
+  for (int np : {64, 65, 80, 100}) {
+    for (int extra = 0; extra < 4; ++extra) {          // components of the second attribute (0: positions only)
+      Geom g; g.is_mesh = false; g.pc.reset(new PointCloud()); g.pc->set_num_points(np);
+      AttDesc d{GeometryAttribute::POSITION, DT_INT32, 3, false, true, np};
+      const int id = add_attribute(g.pc.get(), d, np);
+      for (int v = 0; v < np; ++v) { int32_t x[3] = {(int32_t)r.below(32), (int32_t)r.below(32), (int32_t)r.below(16)}; g.pc->attribute(id)->SetAttributeValue(AttributeValueIndex(v), x); }
+      if (extra) {
+        AttDesc e{GeometryAttribute::GENERIC, DT_UINT8, extra, false, true, np};
+        const int eid = add_attribute(g.pc.get(), e, np);
+        for (int v = 0; v < np; ++v) { uint8_t x[4] = {(uint8_t)r.below(8), (uint8_t)r.below(8), (uint8_t)r.below(4), 0}; g.pc->attribute(eid)->SetAttributeValue(AttributeValueIndex(v), x); }
+      }
+      Opt o; o.expert = true; o.method = 1; o.qbits.assign(extra ? 2 : 1, 0);
+      o.es = o.ds = (int)((k * 3) % 5);
+      Encoded e = encode(g, o);
+      if (!e.ok) { fprintf(stderr, "skip: %s\n", e.err.c_str()); continue; }
+      Decoded dd = decode(e.bytes.data(), e.bytes.size());
+      if (!dd.ok) { fprintf(stderr, "skip: does not decode (%s)\n", dd.err.c_str()); continue; }
+      char name[64]; snprintf(name, sizeof name, "k%04ld.drc", k++);
+      std::ofstream f(dir + "/" + name, std::ios::binary); f.write(e.bytes.data(), e.bytes.size());
+      idx << "{\"file\":\"" << name << "\",\"digest\":" << h64(geom_digest(*dd.pc, dd.is_mesh)) << ",\"np\":" << dd.pc->num_points() << ",\"nf\":0,\"gt\":\"pc\",\"method\":" << (int)(unsigned char)e.bytes[8]
+          << ",\"es\":" << o.es << ",\"pred\":" << o.pred << ",\"builtin\":" << (o.builtin ? "true" : "false") << ",\"what\":\"kd level 6, " << 3 + extra << " dimensions\",\"bytes\":" << e.bytes.size() << "}\n";
+    }
+  }
+  fprintf(stderr, "froze %ld kd streams\n", k);
   return 0;
 }
 
@@ -436,6 +470,7 @@ int main(int argc, char **argv) {
   if (argc >= 4 && !strcmp(argv[1], "freeze-wide-charts")) return run_freeze_wide_charts(argv[2], strtoull(argv[3], 0, 10));
   if (argc >= 5 && !strcmp(argv[1], "freeze-islands")) return run_freeze_islands(argv[2], strtoull(argv[3], 0, 10), atol(argv[4]));
   if (argc >= 4 && !strcmp(argv[1], "freeze-bounds")) return run_freeze_bounds(argv[2], strtoull(argv[3], 0, 10));
+  if (argc >= 4 && !strcmp(argv[1], "freeze-kd")) return run_freeze_kd(argv[2], strtoull(argv[3], 0, 10));
   if (argc >= 3 && !strcmp(argv[1], "freeze-skip")) return run_freeze_skip(argv[2]);
   if (argc >= 3 && !strcmp(argv[1], "check")) return run_check(argv[2]);
   if (argc >= 3 && !strcmp(argv[1], "digest")) { check_one(argv[2], slurp(argv[2]), nullptr); return 0; }
